@@ -472,8 +472,13 @@ func (pool *TxPool) SetGasPrice(price *big.Int) {
 	defer pool.mu.Unlock()
 
 	pool.gasPrice = price
-	for _, tx := range pool.priced.Cap(price, pool.locals) {
+	drop := pool.priced.Cap(price, pool.locals)
+	for _, tx := range drop {
 		pool.removeTx(tx.Hash())
+	}
+	// Removing a pending transaction moves its successors back to the queue: re-establish the queue limits
+	if len(drop) > 0 {
+		pool.promoteExecutables(nil)
 	}
 	log.Info("Transaction pool price threshold updated", "price", price)
 }
@@ -637,6 +642,11 @@ func (pool *TxPool) add(tx *types.Transaction, local bool) (bool, error) {
 			log.Trace("Discarding freshly underpriced transaction", "hash", tx.Hash(), "price", tx.GasPrice())
 			underpricedTxCounter.Inc(1)
 			pool.removeTx(tx.Hash())
+		}
+		// Removing a pending transaction moves its successors back to the queue: re-establish
+		// the queue limits now, a replacement below does not run the promotion step again
+		if len(drop) > 0 {
+			pool.promoteExecutables(nil)
 		}
 	}
 	// If the transaction is replacing an already pending one, do directly
